@@ -693,6 +693,11 @@ def run_corpus(case, acc):
         shapes = [rnd.choice(["random", "random"] + (CAT_SHAPES if kind == "category" else XY_SHAPES)) for _ in range(rnd.choice([1, 2, 3]))]
         descs = [gen_data(rnd, kind, s, 0) for s in shapes]
         plots = [p["tag"] for p in read_chart(root)["plots"]]
+        nser0 = sum(len(ordered_sers(p)) for p in plot_elements(root))
+        if case["seed"][-1] % 2 == 0:  # every other round starts by GROWING the authored chart by two series (new c:idx / c:order next to the authored ones)
+            shapes.insert(0, "grow+2")
+            descs.insert(0, gen_data(rnd, kind, "few", 0, force={"nser": nser0 + 2}))
+            acc.hit("corpus-chart-grown-by-two-series")
         sig = {"deck": case["deck"], "chart": str(chart.part.partname), "d1904": bool(case.get("d1904")), "rep": [signature(d) for d in descs]}
         j = Judge(acc, dict(case, chart=n), "%s %s%s, replace with %s" % (case["deck"], chart.part.partname, " (date1904 variant)" if case.get("d1904") else "", shapes))
         nser = sum(len(ordered_sers(p)) for p in plot_elements(root))
